@@ -41,6 +41,8 @@ class EventDispatcherBase <
 	MixinRoot_
 >
 {
+	EVENTPP_VERIF_FRIEND
+
 protected:
 	using ThisType = EventDispatcherBase<
 		EventType_,
@@ -133,6 +135,7 @@ public:
 	Handle appendListener(const Event & event, const Callback & callback)
 	{
 		std::lock_guard<Mutex> lockGuard(listenerMutex);
+		EVENTPP_VERIF_POINT("ed.appendListener.cs");
 
 		return eventCallbackListMap[event].append(callback);
 	}
@@ -140,6 +143,7 @@ public:
 	Handle prependListener(const Event & event, const Callback & callback)
 	{
 		std::lock_guard<Mutex> lockGuard(listenerMutex);
+		EVENTPP_VERIF_POINT("ed.prependListener.cs");
 
 		return eventCallbackListMap[event].prepend(callback);
 	}
@@ -147,6 +151,7 @@ public:
 	Handle insertListener(const Event & event, const Callback & callback, const Handle & before)
 	{
 		std::lock_guard<Mutex> lockGuard(listenerMutex);
+		EVENTPP_VERIF_POINT("ed.insertListener.cs");
 
 		return eventCallbackListMap[event].insert(callback, before);
 	}
@@ -261,6 +266,7 @@ private:
 		-> typename std::conditional<std::is_const<T>::value, const CallbackList_ *, CallbackList_ *>::type
 	{
 		std::lock_guard<Mutex> lockGuard(self->listenerMutex);
+		EVENTPP_VERIF_POINT("ed.find.cs");
 
 		auto it = self->eventCallbackListMap.find(e);
 		if(it != self->eventCallbackListMap.end()) {
